@@ -78,4 +78,17 @@ def handleCli (j : Json) : R Json := do
                  ("gap", jNat c.gap), ("max_bells", jInt c.maxBells), ("min_bells", jInt c.minBells),
                  ("name", jOptChars c.name)]
 
+def handleServerCli (j : Json) : R Json := do
+  let port ← optF asInt j "port"
+  let id ← optF asInt j "id"
+  let s := serverMain port id
+  let c := s.cfg
+  return jObj [("url", jChars s.url), ("udi", Json.bool c.udi), ("sar", Json.bool c.sar),
+               ("call_comps", Json.bool c.callComps), ("use_wait", Json.bool c.useWait),
+               ("peal_speed", jInt c.pealSpeed), ("inertia", jNat c.inertia), ("gap", jNat c.gap),
+               ("max_bells", jInt c.maxBells), ("min_bells", jInt c.minBells), ("name", jOptChars c.name),
+               ("initial_inertia", jNat s.initialInertia),
+               ("server_id", match s.serverId with | some i => jInt i | none => Json.null),
+               ("placeholder", Json.bool (match c.source with | .gen g => g.kind == .placeholder | _ => false))]
+
 end Drv
